@@ -89,6 +89,17 @@ def check_parsers(mode: str, pr: refenc.Produced, entries=None):
                     if entry == "flat" and T.norm_events(pj.parse(integ, "flat-prefetched", pr.data)) != got:
                         return {"clause": "events-differ", "entry": f"{integ}:flat-prefetched",
                                 "summary": f"{integ}: two-step parse (get_options_and_frames, then parse_jelly_flat) differs from the one-step parse"}
+                    if entry in ("flat", "to_graph"):
+                        # the stream stored behind something else in a seekable container: the caller positions the
+                        # file object at the stream's first byte (a preamble that would classify the other way)
+                        import io
+                        pre = (b"\x0a\x00" if pr.delimited else b"\x00\x01") + b"container-header" * 3
+                        f = io.BytesIO(pre + pr.data)
+                        f.seek(len(pre))
+                        if T.norm_events(pj.parse(integ, entry, f)) != got:
+                            return {"clause": "events-differ", "entry": f"{integ}:{entry}@offset",
+                                    "summary": f"{integ}:{entry}: a stream handed over at a non-zero position of a seekable "
+                                               f"input parses differently from the same bytes at position 0"}
             except Exception as e:  # noqa: BLE001
                 return {"clause": "parser-raised", "entry": f"{integ}:{entry}",
                         "summary": f"{integ}:{entry} raised {type(e).__name__}: {e}"}
